@@ -44,7 +44,9 @@ class FakeEvent:
 
     def wait(self, timeout=None):
         w = self.w
-        w.env.budget('wait', 40)
+        if w.wakeups > 3 * w.K + 6:
+            raise Stop('waits without end')     # the loop does not honour the documented stop mechanism any more
+        w.env.budget('wait', 60)
         w.log.append(('wait', w.clock.now, timeout))
         if not self.flag:
             w.clock.now = w.clock.now + timeout + 0.001
@@ -86,7 +88,7 @@ def build(env, p):
     import frappy.modulebase as mb
     w = World()
     w.env = env
-    if p.get('persistent'):
+    if p.get('persistent') or p.get('concrete_t0'):
         t0 = [1000.0, 1000.37, 1003.999][env.choice('t0', 3)]
     else:
         t0 = env.real('t0', 1000, 1100)
@@ -103,7 +105,7 @@ def build(env, p):
     w.comm_failed_at = []
     if p.get('persistent'):
         w.persistent_name = ['value', 'status', 'p1'][env.choice('failing', 3)]
-        w.persistent_kind = ['secop', 'silent', 'other'][env.choice('failkind', 3)]
+        w.persistent_kind = ['secop', 'silent', 'other', 'comm'][env.choice('failkind', 4)]
 
     class SilentHW(HardwareError):
         silent = True
@@ -127,7 +129,7 @@ def build(env, p):
             raise SilentHW('silent')
         if kind == 'comm':
             w.comm_failed_at.append(start)
-            raise SilentCommunicationFailedError('no reply')
+            raise SilentCommunicationFailedError('no reply (attempt %d)' % len(w.comm_failed_at))
         if kind == 'other':
             raise ValueError('bug')
         return 1.0
@@ -153,13 +155,14 @@ def build(env, p):
 
         def doPoll(self):
             w.log.append(('doPoll', self.name, w.clock.now))
-            if len([e for e in w.log if e[0] == 'doPoll']) > 8:
+            if len([e for e in w.log if e[0] == 'doPoll']) > p.get('maxpolls', 8):
                 w.modules.clear()   # horizon for busy polling (interval 0 never waits)
             super().doPoll()
 
     cfg = {}
     for i in range(p['nmod']):
-        cfg[f'm{i}'] = {'cls': Drv, 'description': 'm', 'pollinterval': {'value': p['interval']}, 'slowinterval': p['slow']}
+        slow = p['slow'] if i == 0 else p.get('slow2', p['slow'])
+        cfg[f'm{i}'] = {'cls': Drv, 'description': 'm', 'pollinterval': {'value': p['interval']}, 'slowinterval': slow}
     srv = C.make_node(cfg)
     mods = [srv.secnode.modules[f'm{i}'] for i in range(p['nmod'])]
     ev = FakeEvent(w)
@@ -188,8 +191,10 @@ def cases(tier):
             out.append({'fn': 'run_poll', 'id': f'poll/i{interval}-s{slow}/mods{nmod}',
                         'params': {'interval': interval, 'slow': slow, 'nmod': nmod, 'K': K if nmod == 1 else K - 1, 'change': None,
                                    'nsym': 2 if nmod == 1 or thorough else 1, 'nfailsym': 2 if nmod == 1 or thorough else 1}})
+    out.append({'fn': 'run_poll', 'id': 'different-slow-intervals', 'params': {'interval': 1, 'slow': 2, 'slow2': 60, 'nmod': 2, 'K': 14,
+                                                                             'change': None, 'nsym': 0, 'nfailsym': 1, 'concrete_t0': True, 'maxpolls': 60}})
     out.append({'fn': 'run_poll', 'id': 'persistent-failure', 'params': {'interval': 1, 'slow': 2, 'nmod': 2, 'K': 12, 'change': None,
-                                                                       'nsym': 0, 'nfailsym': 0, 'persistent': True}})
+                                                                       'nsym': 0, 'nfailsym': 0, 'persistent': True, 'maxpolls': 60}})
     out.append({'fn': 'run_poll', 'id': 'change-fast2', 'params': {'interval': 5, 'slow': 15, 'nmod': 1, 'nsym': 1, 'nfailsym': 0,
                                                                  'K': 5, 'change': 'fast2'}})
     for change in ('interval', 'fast', 'zero'):
@@ -226,6 +231,9 @@ def run_poll(env, p):
         w.on_wakeup = on_wakeup
     try:
         w.main._Module__pollThread(w.modules, lambda: w.started.append(w.clock.now))
+    except Stop:
+        env.fail(K_ + '/poll-thread-stuck', [e for e in w.log if e[0] != 'func'][-4:])
+        return
     except Exception as e:
         env.fail(K_ + '/poll-thread-died/' + type(e).__name__, repr(e))
         return
@@ -240,8 +248,8 @@ def run_poll(env, p):
         env.note('failed-read-survived')
     end = w.clock.now
     interval = p['interval']
-    slow = p['slow']
-    for m in w.mods:
+    for mi, m in enumerate(w.mods):
+        slow = p['slow'] if mi == 0 else p.get('slow2', p['slow'])
         mp = [e for e in polls if e[1] == m.name]
         # initial round: every polled parameter read once before the started callback
         first = [e for e in funcs if e[1] == m.name and e[3] < w.started[0]]
